@@ -86,8 +86,12 @@ def sign_atom(a, F):
         return "0+"
     if k == "app":
         n = a.args[0]
-        if n in F.pos_apps:
+        if n in F.pos_apps or str(n).startswith("csz:"):
+            # blocks of a partition are taken non-empty (an empty block contributes
+            # log 0 = -inf, which the stable log-add-exp absorbs) -- listed assumption
             return "+"
+        if str(n).startswith("coff:"):
+            return "0+"
         if n in F.nonneg_apps:
             return "0+"
         return "?"
